@@ -588,7 +588,9 @@ class TSQLParser(parser.Parser):
         return [
             (
                 exp.alias_(projection.expression, projection.this.this, copy=False)
-                if isinstance(projection, exp.EQ) and isinstance(projection.this, exp.Column)
+                if isinstance(projection, exp.EQ)
+                and isinstance(projection.this, exp.Column)
+                and projection.expression
                 else projection
             )
             for projection in projections
